@@ -1532,7 +1532,9 @@ class IPv6(_pre.Pregex):
         pre = _op.Either(pre, "::")
 
         if not is_extensible:
-            pre = pre.not_enclosed_by(_op.Either(_cl.AnyDigit(), ":"))
+            # The digits of an IPv6 address are hexadecimal ones.
+            hex_digit = _cl.AnyDigit() | _cl.AnyBetween("a", "f") | _cl.AnyBetween("A", "F")
+            pre = pre.not_enclosed_by(_op.Either(hex_digit, ":"))
 
         super().__init__(str(pre), escape=False)
 
